@@ -268,6 +268,32 @@ def f10b_probe(ctx, batch, cov_batch):
         case_hist(ctx, batch, cov_batch, dict(edges=edges, rows=rows, obs=obs, weighted=True, probe="F10b"), "f10b_%d" % N)
 
 
+def large_n_probe(ctx):
+    """patch counts around the integer-width boundaries (2^7, sqrt(2^15), 2^8, ...): the index arithmetic
+    of the histogram resampling must hold for EVERY number of patches.  Checked in the form
+    'sample k = data - row k' (Props/C03: hist_loo_is_data_minus_row ties it to the index model)."""
+    import random
+    from yaw.redshifts import resample_jackknife
+    prng = random.Random(4242)
+    terms, metas = [], []
+    for N in ((127, 129, 181, 182, 257) if ctx.quick() else (127, 128, 129, 180, 181, 182, 183, 255, 256, 257, 400, 1000)):
+        B = 2
+        obs = [[float(prng.randrange(0, 9)) for _ in range(B)] for _ in range(N)]
+        arr = np.asarray(obs)
+        samples = resample_jackknife(arr)
+        data = arr.sum(axis=0)
+        terms.append("code [list_eqb qlist_eqb (map (zipsub %s) %s) %s]" % (fq.qlist(data), fq.qmat(obs), fq.qmat(samples)))
+        metas.append(dict(kind="hist-large-N", N=N, B=B, seed=4242))
+        ctx.count(key=("hist-large", N), nontrivial=True, kind="hist/largeN")
+    header = ("From Verif Require Import Prelude.\nOpen Scope Q_scope.\n"
+              "Fixpoint zipsub (a b : list Q) : list Q := match a, b with x :: xs, y :: ys => (x - y) :: zipsub xs ys | _, _ => [] end.\n")
+    codes = ctx.shards("Cases_C03_largeN", header, terms, shard=3)
+    for meta, c in zip(metas, codes):
+        if c:
+            ctx.fail("c03-hist-samples-not-loo", "resample_jackknife with %d patches: sample k is not the histogram without patch k"
+                     % meta["N"], meta, case=("largeN", meta["N"]))
+
+
 def traces(ctx):
     jobs = []
     for N in (2, 3, 4):
@@ -292,6 +318,7 @@ def run(ctx):
     b_nz = jk.Batch(ctx, "Cases_C03_nz", shard=40)
     b_hist = jk.Batch(ctx, "Cases_C03_hist", shard=80)
     f10b_probe(ctx, b_hist, b_cov)
+    large_n_probe(ctx)
     small = not ctx.quick()          # thorough: many cases, mostly small shapes
     for _ in range(ctx.n(50, 900)):
         case_sps(ctx, b_raw, gen_single(rng, "sps", small and rng.random() < 0.7))
